@@ -273,6 +273,135 @@ fn run_one(b: &Value) -> (Option<Value>, Vec<Value>) {
     (None, trace)
 }
 
+// ---- memory of the C interface (C15 through the surface C clients use) ------------------------------------------------
+extern "C" fn count_write_cb(_buf: *const u8, len: u32, ctx: *mut c_void, written: *mut u32) -> i32 {
+    unsafe {
+        *ctx.cast::<u64>() += u64::from(len);
+        *written = len;
+    }
+    0
+}
+struct FileSrcCtx {
+    f: std::fs::File,
+    counters: Vec<Box<u64>>,
+}
+extern "C" fn fread_cb(buf: *mut u8, len: u32, ctx: *mut c_void, read: *mut u32) -> i32 {
+    let c = unsafe { &mut *(ctx.cast::<FileSrcCtx>()) };
+    let s = unsafe { std::slice::from_raw_parts_mut(buf, len as usize) };
+    match c.f.read(s) {
+        Ok(n) => { unsafe { *read = n as u32 }; 0 }
+        Err(_) => 5,
+    }
+}
+extern "C" fn fseek_cb(off: i64, whence: i32, ctx: *mut c_void, newpos: *mut u64) -> i32 {
+    use std::io::{Seek, SeekFrom};
+    let c = unsafe { &mut *(ctx.cast::<FileSrcCtx>()) };
+    let sf = match whence { 0 => SeekFrom::Start(off as u64), 1 => SeekFrom::Current(off), _ => SeekFrom::End(off) };
+    match c.f.seek(sf) {
+        Ok(p) => { unsafe { *newpos = p }; 0 }
+        Err(_) => 22,
+    }
+}
+extern "C" fn count_file_cb(ctx: *mut c_void, _name: *const u8, _len: usize, fw: *mut FileWriter) -> i32 {
+    let c = unsafe { &mut *(ctx.cast::<FileSrcCtx>()) };
+    c.counters.push(Box::new(0));
+    let p: *mut u64 = &mut **c.counters.last_mut().unwrap();
+    unsafe {
+        let q = fw.cast::<usize>();
+        *q = count_write_cb as MLAWriteFn as usize;
+        *q.add(1) = flush_cb as MLAFlushFn as usize;
+        *q.add(2) = p as usize;
+    }
+    0
+}
+
+/// Engine "capimem": peak live heap while an archive is written and extracted THROUGH THE C ENTRY POINTS (callbacks
+/// that only count), for TraceMem.  args: out.ndjson sizes_mib(comma) tmpdir
+pub fn main_mem(args: &[String]) {
+    quiet_panics();
+    let mut tw = JsonlWriter::create(&args[0]);
+    let sizes: Vec<u64> = args[1].split(',').map(|s| s.parse().unwrap()).collect();
+    let tmpdir = args[2].clone();
+    let keys = archive::keypairs(31, 1);
+    let pub_pem = {
+        let mut der = vec![0x30, 0x2a, 0x30, 0x05, 0x06, 0x03, 0x2b, 0x65, 0x6e, 0x03, 0x21, 0x00];
+        der.extend(keys[0].1.as_bytes());
+        CString::new(pem_of("PUBLIC KEY", &der)).unwrap()
+    };
+    let priv_pem = {
+        let mut der = vec![0x30, 0x2e, 0x02, 0x01, 0x00, 0x30, 0x05, 0x06, 0x03, 0x2b, 0x65, 0x6e, 0x04, 0x22, 0x04, 0x20];
+        der.extend(keys[0].0.to_bytes());
+        CString::new(pem_of("PRIVATE KEY", &der)).unwrap()
+    };
+    for mib in &sizes {
+        let total = mib << 20;
+        let nfiles = 3u64;
+        // ---- write through the C interface: default layers (compress + encrypt), counting destination
+        let piece = crate::cells::content(5, 1, 1 << 20, crate::cells::Entropy::High);
+        let base = crate::alloc::reset_peak();
+        let mut written = 0u64;
+        let ok = {
+            let mut cfg: MLAConfigHandle = null_mut();
+            let mut ar: MLAArchiveHandle = null_mut();
+            let ctx: *mut c_void = (&mut written as *mut u64).cast();
+            let mut ok = status_ok(&mla_config_default_new(&mut cfg))
+                && status_ok(&mla_config_add_public_keys(cfg, pub_pem.as_ptr()))
+                && status_ok(&mla_config_set_compression_level(cfg, 1))
+                && status_ok(&mla_archive_new(&mut cfg, Some(count_write_cb), Some(flush_cb), ctx, &mut ar));
+            for k in 0..nfiles {
+                let cname = CString::new(format!("file{k}")).unwrap();
+                let mut fh: MLAArchiveFileHandle = null_mut();
+                ok = ok && status_ok(&mla_archive_file_new(ar, cname.as_ptr(), &mut fh));
+                for _ in 0..(total / nfiles) >> 20 {
+                    ok = ok && status_ok(&mla_archive_file_append(ar, fh, piece.as_ptr(), piece.len() as u64));
+                }
+                ok = ok && status_ok(&mla_archive_file_close(ar, &mut fh));
+            }
+            ok && status_ok(&mla_archive_close(&mut ar))
+        };
+        let peak = crate::alloc::peak().saturating_sub(base);
+        assert!(ok, "C write path failed");
+        tw.push(&json!({"ev": "mem", "op": "c-write", "stack": "comp+enc", "mib": mib, "peak": peak, "files": nfiles, "runs": nfiles, "out": written}));
+        // ---- extract through the C interface, from a file, into counting destinations
+        for (st, layers) in [("comp+enc", mla::Layers::DEFAULT), ("raw", mla::Layers::EMPTY)] {
+            let path = format!("{tmpdir}/cmem-{st}-{mib}.mla");
+            {
+                let mut wcfg = mla::config::ArchiveWriterConfig::new();
+                wcfg.set_layers(layers);
+                wcfg.with_compression_level(1).unwrap();
+                if st != "raw" {
+                    wcfg.add_public_keys(&[keys[0].1]);
+                }
+                let mut w = mla::ArchiveWriter::from_config(std::io::BufWriter::new(std::fs::File::create(&path).unwrap()), wcfg).unwrap();
+                for k in 0..nfiles {
+                    let id = w.start_file(&format!("file{k}")).unwrap();
+                    for _ in 0..(total / nfiles) >> 20 {
+                        w.append_file_content(id, piece.len() as u64, &piece[..]).unwrap();
+                    }
+                    w.end_file(id).unwrap();
+                }
+                w.finalize().unwrap();
+            }
+            let mut src = Box::new(FileSrcCtx { f: std::fs::File::open(&path).unwrap(), counters: vec![] });
+            let sctx: *mut c_void = (&mut *src as *mut FileSrcCtx).cast();
+            let base = crate::alloc::reset_peak();
+            let mut rcfg: MLAConfigHandle = null_mut();
+            let mut ok = status_ok(&mla_reader_config_new(&mut rcfg));
+            if st != "raw" {
+                ok = ok && status_ok(&mla_reader_config_add_private_key(rcfg, priv_pem.as_ptr()));
+            }
+            let stt = mla_roarchive_extract(&mut rcfg, Some(fread_cb), Some(fseek_cb), Some(count_file_cb), sctx);
+            let peak = crate::alloc::peak().saturating_sub(base);
+            let delivered: u64 = src.counters.iter().map(|c| **c).sum();
+            assert!(ok && status_ok(&stt), "C extraction failed");
+            assert!(delivered == (total / nfiles >> 20 << 20) * nfiles, "C extraction delivered {delivered} bytes");
+            tw.push(&json!({"ev": "mem", "op": "c-extract", "stack": st, "mib": mib, "peak": peak, "files": nfiles, "runs": nfiles}));
+            std::fs::remove_file(&path).ok();
+        }
+    }
+    tw.finish();
+}
+
 fn pem_of(label: &str, der: &[u8]) -> String {
     const T: &[u8; 64] = b"ABCDEFGHIJKLMNOPQRSTUVWXYZabcdefghijklmnopqrstuvwxyz0123456789+/";
     let mut s = String::new();
